@@ -651,6 +651,7 @@ def run(repo, rep, tier):
             '_validate_MaxObjectCount_Iter', '_validate_OperationTimeout')))
     pull_kinds_rule(repo, rep, r6, mp)
     pull_answers_come_from_the_context(repo, rep, mp)
+    context_is_registered_last(repo, rep, mp)
     from .c13 import adapters_forward_every_filter
     adapters_forward_every_filter(
         repo, rep, 'C14.R16', lambda n: n[7:].startswith(
@@ -1049,3 +1050,65 @@ def timeout_zero_is_never(repo, rep, rid):
         node = probe
     if len(expiry_tests(_F)) != 1:
         raise AnalysisError(rid + ' recogniser broken')
+
+
+def context_is_registered_last(repo, rep, mp):
+    """C14.R18: an Open...() handler registers the enumeration context (in
+    _open_response()) as the last thing that can fail.  The client learns
+    the context id only from the response; if a statement after the
+    registration raises (the lookup of the query result class, a
+    validation moved behind it), the Open fails, the client has no id to
+    pull from or to close - and the context, with the whole remaining
+    result, stays open on the server.  So on every way from the call of
+    _open_response() to the end of the handler there is nothing but
+    call-free assignments and the return of the values."""
+    from ..inline import Flat
+    r18 = rep.rule('C14.R18', 'nothing that can fail follows the '
+                   'registration of the enumeration context in an Open '
+                   'handler')
+    n = 0
+    for name, f0 in sorted(mp.methods.items()):
+        if not name.startswith('Open'):
+            continue
+        f = Flat(f0, keep=('_open_response',))
+        cfg = CFG(f.node)
+        regs = [st for st in cfg.stmts() if not isinstance(
+            st, (ast.If, ast.For, ast.While, ast.Try, ast.With)) and any(
+                isinstance(c, ast.Call) and
+                dotted(c.func) == 'self._open_response'
+                for c in ast.walk(st))]
+        if not regs:
+            continue
+        n += 1
+        r18.sites += 1
+        r18.functions.add(f0.fq)
+        bad = []
+        for rg in regs:
+            for st in cfg.reachable(rg):
+                if st is rg or not isinstance(st, ast.stmt):
+                    continue
+                if isinstance(st, (ast.If, ast.For, ast.While, ast.Try,
+                                   ast.With)):
+                    tests = [getattr(st, 'test', None),
+                             getattr(st, 'iter', None)]
+                    if any(t is not None and any(
+                            isinstance(c, ast.Call) for c in ast.walk(t))
+                            for t in tests):
+                        bad.append(st)
+                    continue
+                if isinstance(st, ast.Raise) or any(
+                        isinstance(c, ast.Call) for c in ast.walk(st)):
+                    bad.append(st)
+        r18.ob(not bad, name, {'after_registration':
+                               [norm(b, 50) for b in bad][:3]})
+        for b in bad[:1]:
+            rep.finding(r18, f0.qualname, norm(b, 70),
+                        'can-fail-after-registration', MAIN, b.lineno,
+                        'this statement runs after _open_response() has '
+                        'registered the enumeration context and can raise: '
+                        'the Open then fails without the client ever '
+                        'learning the context id, and the context stays '
+                        'open on the server')
+    if n < 7:
+        raise AnalysisError('C14.R18: only %d Open handlers with a context '
+                            'registration found' % n)
